@@ -27,6 +27,9 @@ package resolver
 //@   assert at call middleware/resolver.minCut#1: nsInfo.nsTTL <= 2147483647 ==> inst(arg2) <= inst(lastret("time.Now")) + int64(nsInfo.nsTTL) * 1000000000
 //@   assert at call middleware/resolver.minCut#1: len(rs.parentDS) > 0 && lastret("middleware/resolver.minRRSetTTL#1") <= 2147483647 ==> inst(arg2) <= inst(lastret("time.Now")) + int64(lastret("middleware/resolver.minRRSetTTL#1")) * 1000000000
 //@   assert at call middleware/resolver.minCut#1: calls("time.Now") == 1
+//@   # "measured from the moment the referral was observed": the one clock reading is taken BEFORE validation starts, so
+//@   # the time validation takes (it walks the DS chain and may query) is never added back onto the lease
+//@   assert at call (*middleware/resolver.Resolver).validateDelegation#1: calls("time.Now") == 1
 //@   # "... and a 12 h ceiling": the lease handed on to the answer's cut, the descent and deeper delegations - not only
 //@   # the delegation cache's own entry - ends at most 12 h after the referral was observed
 //@   assert at call middleware/resolver.minCut#1: inst(arg2) <= inst(lastret("time.Now")) + 43200000000000
